@@ -195,6 +195,17 @@ def iv3_cache_keys(m, run, classes, rule='IV3.cache-key-init'):
 
 
 def iv4_deepcopy(m, run, rule='IV4.deepcopy-independent'):
+    """the deep copy of every shape class is decided on an abstract object with the memo contract modelled (DC9); the rule that reads how
+    __deepcopy__ spells the attribute loop and the memo seeding corroborates"""
+    from . import skel_drivers as _sd
+    n0 = len(run.obs)
+    _sd.dc9(m, run)
+    ok = all(o.ok for o in run.obs[n0:])
+    with run.corroborating(ok, 'DC9', rules=(rule + '.memo', rule + '.attrs'), only=lambda o: o.rule in (rule + '.memo', rule + '.attrs')):
+        _iv4_deepcopy_syntactic(m, run, rule)
+
+
+def _iv4_deepcopy_syntactic(m, run, rule):
     """every __deepcopy__ of the geometry hierarchy copies each attribute through copy.deepcopy(., memo);
     memo is pre-seeded only with id(self) -> result and id(self._cache) -> fresh dict"""
     n = 0
